@@ -208,6 +208,38 @@ let () =
           List.iter (fun (i, v) -> arr.(int_of_z i) <- bits_tok v) wr;
           let t = "L:" ^ String.concat "," (Array.to_list arr) in
           Printf.printf "M %s %s\nS %s %s\n" id t id t
+        end else if kind = "csrc" then begin
+          (* mpt::source<T> (harness/c19_src.cpp): T,len,step;values *)
+          (match String.split_on_char ';' arg with
+           | [hdr; vs] ->
+             (match String.split_on_char ',' hdr with
+              | [ty; len; step] ->
+                let elems = if vs = "-" then [] else
+                  List.map (fun v -> Fin { qnum = z_of_int (int_of_string v); qden = XH }) (String.split_on_char ',' vs) in
+                let tyc = (match ty with "d" -> 100 | "i" -> 105 | _ -> 121) in
+                let stepi = int_of_string step in
+                let src = Some (SSrc (mk_csrc elems (z_of_int (int_of_string len)) (z_of_int stepi) (z_of_int tyc))) in
+                let ops = parse_ops ops in
+                let mo = mrun rnd64 (src, None) ops in
+                (* step 0 never ends: not specified at the level of the cursor *)
+                let so_t = if stepi = 0 then List.map (fun _ -> "*") ops else spec_tokens false src ops None in
+                Printf.printf "M %s %s\n" id (String.concat " " ("C:1" :: List.map2 (show_m false) ops mo));
+                Printf.printf "S %s %s\n" id (String.concat " " ("C:1" :: so_t))
+              | _ -> failwith "arg")
+           | _ -> failwith "arg")
+        end else if kind = "cdef" then begin
+          (* an iterator that only implements value(): the defaults of mptcore/types.h answer advance with MissingData
+             and reset with BadOperation (constants of the interface, no state): compared with the code only *)
+          let v = Fin { qnum = z_of_int (int_of_string arg); qden = XH } in
+          let tok o = match o with
+            | (OValue, false) -> "V:" ^ dbl_tok v
+            | (OAdvance, false) -> "A:-16"
+            | (OReset, false) -> "R:-4"
+            | (OWalk, false) -> "W:1:e-16:" ^ bits_tok v
+            | _ -> "-" in
+          let ops = parse_ops ops in
+          Printf.printf "M %s %s\n" id (String.concat " " ("C:1" :: List.map tok ops));
+          Printf.printf "S %s %s\n" id (String.concat " " ("C:1" :: List.map (fun _ -> "*") ops))
         end else if kind = "from" then begin
           (match String.split_on_char ';' arg with
            | [ctor; sk; txt] ->
